@@ -6,9 +6,19 @@ From Coq Require Strings.String.
 Import Coq.Strings.String.StringSyntax.
 Delimit Scope string_scope with string.
 From PB Require Import Base.PBytes Known.FieldMaskModel Known.DurationModel Known.TimestampModel
-  Known.WktJsonModel Known.DurJsonP Known.FmJsonP Known.CivilModel Known.CivilP Known.TsJsonModel Known.TsJsonP Known.TsGrammarP.
+  Known.WktJsonModel Known.DurJsonP Known.FmJsonP Known.CivilModel Known.CivilP Known.TsJsonModel Known.TsJsonP Known.TsGrammarP Gen.KnownGo Known.KnownGoP.
 Import ListNotations.
 Open Scope Z_scope.
+
+(* Tier T: the range constants of the model are those of the current source
+   (Gen/KnownGo.v, regenerated from encoding/protojson/well_known_types.go and types/known/*pb) *)
+Theorem C23_constants_match_source :
+  c_pj_secondsInNanos = seconds_in_nanos /\ c_pj_maxSecondsInDuration = max_seconds_in_duration /\
+  c_pj_maxTimestampSeconds = max_timestamp_seconds /\ c_pj_minTimestampSeconds = min_timestamp_seconds /\
+  c_pj_maxSecondsInDuration = c_dur_check_absDuration /\
+  c_pj_maxTimestampSeconds = c_ts_check_maxTimestamp /\ c_pj_minTimestampSeconds = c_ts_check_minTimestamp.
+Proof. exact json_constants_match_source. Qed.
+Print Assumptions C23_constants_match_source.
 
 (* ---------------- Duration ---------------- *)
 
